@@ -80,6 +80,11 @@ def _gen_mv_configs(rng, T):
     if all(c["tree"] is None for c in configs):
         tree, _ = gen_tree(rng, T, 1)
         configs.append({"n": 2, "tree": tree, "form": "config"})
+    if rng.random() < 0.45:
+        # a view whose transform is a plain callable (no KDTransform: nothing to re-seed), first / in the middle / last
+        pos = rng.choice([0, 0, len(configs) // 2, len(configs), rng.randint(0, len(configs))])
+        form = rng.choice(["config", "tuple", "dict", "bare"])
+        configs.insert(pos, {"n": 1 if form == "bare" else rng.choice([1, 2]), "tree": None, "plain": rng.choice(["fn", "obj"]), "form": form})
     return configs
 
 
@@ -95,18 +100,35 @@ def _gen_common(rng):
     return cls, {}
 
 
-def gen_chain(rng, allow_fused=True, allow_collators=True, domain=None):
+def _new_rid(rng):
+    return f"shared{rng.randrange(10 ** 9)}"
+
+
+def gen_chain(rng, allow_fused=True, allow_collators=True, domain=None, base=None):
     """one root with 1..4 layers above it -> (node, info) with info = {"x": type | "views", "fused": None|"mix"|"semseg",
-    "top": kind of the outermost layer, "n": len, "collators": bool}"""
-    domain = domain or rng.choice(["tensor", "tensor", "tensor1", "pil", "pil", "semseg", "semseg", "common"])
-    if domain == "common":
-        s = rng.choice([16, 24, 32])
-        T = H.t_img("pil", 3, s, rng.choice([s, 20]))
+    "top": kind of the outermost layer, "n": len, "collators": bool, "levels": [(node, state) per layer, root first]}.
+    base = (node, state) of another chain: the new layers are put on top of that node (the built objects are shared through the
+    node's "rid")"""
+    if base is None:
+        domain = domain or rng.choice(["tensor", "tensor", "tensor1", "pil", "pil", "semseg", "semseg", "common"])
+        if domain == "common":
+            s = rng.choice([16, 24, 32])
+            T = H.t_img("pil", 3, s, rng.choice([s, 20]))
+        else:
+            T = H.random_input_type(rng, domain)
+        n = rng.choice([3, 4, 6, 9])
+        root = {"k": "root", "n": n, "T": T, "data_seed": rng.randrange(10 ** 6), "onehot": False, "collators": []}
+        cur, curT, views, fused, prev = root, T, False, None, "root"
     else:
-        T = H.random_input_type(rng, domain)
-    n = rng.choice([3, 4, 6, 9])
-    root = {"k": "root", "n": n, "T": T, "data_seed": rng.randrange(10 ** 6), "onehot": False, "collators": []}
-    cur, curT, views, fused, prev, stochastic = root, T, False, None, "root", 0
+        cur, st = base
+        curT, views, fused, prev, n, domain = st["curT"], st["views"], st["fused"], st["prev"], st["n"], st["domain"]
+        root = next(x for x in _nodes(cur) if x["k"] == "root")
+    stochastic = 0
+
+    def state():
+        return {"curT": curT, "views": views, "fused": fused, "prev": prev, "n": n, "domain": domain}
+
+    levels = [(cur, state())]
     for _ in range(rng.choice([1, 2, 2, 3, 3, 4])):
         opts = []
         if fused is None:
@@ -157,25 +179,38 @@ def gen_chain(rng, allow_fused=True, allow_collators=True, domain=None):
             fused = "semseg"
             stochastic += 1
         prev = kind
-    if stochastic == 0:
-        # at least one stochastic layer
+        levels.append((cur, state()))
+    if stochastic == 0 and not views and fused is None:
+        # at least one stochastic layer (of its own, when stacked on a shared base)
         if curT["kind"] == "semseg":
             if not allow_fused:
-                return gen_chain(rng, allow_fused, allow_collators, "tensor")
-            members, curT = _gen_semseg_members(rng, curT)
-            cur = {"k": "semseg", "members": members, "child": cur}
-            fused, prev = "semseg", "semseg"
+                if base is None:
+                    return gen_chain(rng, allow_fused, allow_collators, "tensor")
+            else:
+                members, curT = _gen_semseg_members(rng, curT)
+                cur = {"k": "semseg", "members": members, "child": cur}
+                fused, prev = "semseg", "semseg"
+                levels.append((cur, state()))
         else:
             tree, outT = gen_tree(rng, H.single(curT), rng.choice([1, 2]))
             cur = {"k": "xt", "tree": tree, "child": cur}
             curT, prev = outT, "xt"
             views = bool(outT.get("multi")) or outT["kind"] not in ("pil", "tensor")
-    info = {"x": "views" if views else curT, "fused": fused, "top": prev, "n": n, "collators": False}
-    if allow_collators and rng.random() < 0.45:
+            levels.append((cur, state()))
+    info = {"x": "views" if views else curT, "fused": fused, "top": prev, "n": n, "collators": bool(root["collators"]), "levels": levels}
+    if base is None and allow_collators and rng.random() < 0.45:
         cols = [{"c": "draw", "tag": f"collator{i}"} for i in range(rng.choice([1, 1, 2]))]
         root["collators"] = cols
         info["collators"] = True
     return cur, info
+
+
+def _share_point(rng, info):
+    """a layer of a generated chain other chains may be stacked on (the root mostly): -> (node, state), node gets a "rid" """
+    cands = [(nd, st) for nd, st in info["levels"] if st["fused"] is None and not st["views"]]
+    node, st = cands[0] if (rng.random() < 0.6 or len(cands) == 1) else rng.choice(cands)
+    node.setdefault("rid", _new_rid(rng))
+    return node, st
 
 
 def _mode_node(rng, chain, info):
@@ -192,7 +227,8 @@ def _mode_node(rng, chain, info):
         ncol = len(root[0]["collators"])
         node["cform"] = rng.choice(["compose", "compose", "single", "wrapper"]) if ncol == 1 else "compose"
         # a real mix collator where the collated batch is a stack of equally shaped tensors with one-hot classes
-        if mode == "x class" and info["x"] != "views" and _fixed_tensor(info["x"]) and rng.random() < 0.6:
+        shared = any("rid" in x for x in _nodes(chain))
+        if not shared and mode == "x class" and info["x"] != "views" and _fixed_tensor(info["x"]) and rng.random() < 0.6:
             if fused is None:
                 root[0]["onehot"] = True
             root[0]["collators"].append({"c": "mix", "kw": {"mixup_alpha": 0.8, "mixup_p": 1.0, "apply_mode": rng.choice(["batch", "sample"]),
@@ -212,28 +248,47 @@ def _nodes(node):
         yield from _nodes(ch)
 
 
-def _gen_mode(rng, allow_concat=True):
-    if allow_concat and rng.random() < 0.25:
-        children, total = [], 0
-        for _ in range(rng.choice([2, 2, 3])):
-            ch, info = gen_chain(rng, allow_fused=False, allow_collators=False)
+def _gen_mode(rng, allow_concat=True, base=None):
+    """-> (mode node, len, info of the (first) chain)"""
+    if base is None and allow_concat and rng.random() < 0.25:
+        first, info = gen_chain(rng, allow_fused=False, allow_collators=False)
+        children, total = [first], info["n"]
+        # the parts of a concat are often different views of ONE dataset (weak / strong augmentation, two subsets ...)
+        share = _share_point(rng, info) if rng.random() < 0.6 else None
+        for _ in range(rng.choice([1, 1, 2])):
+            ch, inf = gen_chain(rng, allow_fused=False, allow_collators=False, base=share)
             children.append(ch)
-            total += info["n"]
+            total += inf["n"]
+        if share is not None and rng.random() < 0.5:
+            children.reverse()
         cur = {"k": "concat", "children": children}
         for _ in range(rng.choice([0, 0, 1, 2])):
             cur, total = _dataset_level(rng, rng.choice(DATASET_LEVEL), cur, total)
         return {"k": "mode", "mode": rng.choice(["x", "x", "index x", "x class"]), "return_ctx": rng.random() < 0.3, "cform": "compose",
-                "child": cur}, total
-    chain, info = gen_chain(rng)
-    return _mode_node(rng, chain, info), info["n"]
+                "child": cur}, total, None
+    chain, info = gen_chain(rng, base=base)
+    return chain, info["n"], info
 
 
 def gen_sim_stack(rng):
     if rng.random() < 0.2:
-        parts = [_gen_mode(rng) for _ in range(rng.choice([2, 2, 3]))]
+        # InterleavedSampler: main dataset + side datasets, frequently over the same root (train / eval views of one dataset)
+        parts, share = [], None
+        for j in range(rng.choice([2, 2, 3])):
+            node, n, info = _gen_mode(rng, base=share)
+            if info is not None:
+                if j == 0 and rng.random() < 0.5:
+                    share = _share_point(rng, info)
+                parts.append([node, n, info])
+            else:
+                parts.append([node, n, None])
+        out = []
+        for node, n, info in parts:
+            out.append((_mode_node(rng, node, info) if info is not None else node, n))
         # InterleavedSampler asserts batch_size <= len(main dataset)
-        return {"k": "interleaved", "batch_size": min(rng.choice([1, 2, 3]), parts[0][1]), "children": [p[0] for p in parts]}
-    return _gen_mode(rng)[0]
+        return {"k": "interleaved", "batch_size": min(rng.choice([1, 2, 3]), out[0][1]), "children": [p[0] for p in out]}
+    node, n, info = _gen_mode(rng)
+    return _mode_node(rng, node, info) if info is not None else node
 
 
 # ------------------------------------------------------------------------------------------------ probe stacks
@@ -266,6 +321,8 @@ def gen_probe_tree(rng, depth, tag, where="", sched_ok=True, allow_sched=True, p
     if kind in ("compose", "list"):
         members = [gen_probe_tree(rng, depth - 1, tag, f"{where}/{kind}[{i}]", sched_ok, allow_sched, patch_ok)
                    for i in range(rng.choice([1, 2, 2, 3]))]
+        if rng.random() < 0.3:     # a member that is no KDTransform (plain callable), first / in the middle / last
+            members.insert(rng.randint(0, len(members)), {"t": "plain"})
         node = {"t": "compose", "members": members}
         if kind == "list" and where:     # a bare list is only meaningful as a member of a compose
             node["implicit"] = True
@@ -280,12 +337,18 @@ def gen_probe_tree(rng, depth, tag, where="", sched_ok=True, allow_sched=True, p
     raise ValueError(kind)
 
 
-def gen_probe_chain(rng, prefix, allow_sched=True, allow_collators=True):
+def gen_probe_chain(rng, prefix, allow_sched=True, allow_collators=True, root=None, semseg=None):
+    """root given: the chain is stacked on that (shared, "rid") root node"""
     tag = _Tagger(prefix)
-    semseg = rng.random() < 0.3
-    T = H.t_semseg("tensor", 4, 4, ncls=3) if semseg else H.t_img("tensor", rng.choice([1, 3]), 4, 4)
-    n = rng.choice([6, 8, 12])
-    root = {"k": "root", "n": n, "T": T, "data_seed": rng.randrange(10 ** 6), "onehot": False, "collators": []}
+    given = root is not None
+    if given:
+        semseg = root["T"]["kind"] == "semseg"
+        n = root["n"]
+    else:
+        semseg = (rng.random() < 0.3) if semseg is None else semseg
+        T = H.t_semseg("tensor", 4, 4, ncls=3) if semseg else H.t_img("tensor", rng.choice([1, 3]), 4, 4)
+        n = rng.choice([6, 8, 12])
+        root = {"k": "root", "n": n, "T": T, "data_seed": rng.randrange(10 ** 6), "onehot": False, "collators": []}
     cur, views, prev, fused = root, False, "root", None
     layers = rng.choice([1, 2, 2, 3])
     stochastic = 0
@@ -312,6 +375,10 @@ def gen_probe_chain(rng, prefix, allow_sched=True, allow_collators=True):
                 form = rng.choice(["config", "tuple", "dict", "bare"])
                 configs.append({"n": 1 if form == "bare" else rng.choice([1, 2]), "form": form,
                                 "tree": gen_probe_tree(rng, rng.choice([0, 1, 2]), tag, f"L{li}/view{ci}", allow_sched=allow_sched)})
+            if rng.random() < 0.5:     # a plain-callable view first / in the middle / last
+                form = rng.choice(["config", "tuple", "dict", "bare"])
+                configs.insert(rng.choice([0, 0, len(configs) // 2, len(configs)]),
+                               {"n": 1, "tree": None, "plain": rng.choice(["fn", "obj"]), "form": form})
             cur = {"k": "mv", "configs": configs, "child": cur}
             views = True
             stochastic += 1
@@ -331,7 +398,7 @@ def gen_probe_chain(rng, prefix, allow_sched=True, allow_collators=True):
         mode = rng.choice(["x semseg", "x"])
     else:
         mode = rng.choice(["x", "x class", "index x"])
-    if allow_collators and rng.random() < 0.5:
+    if allow_collators and not given and rng.random() < 0.5:
         root["collators"] = [{"c": "draw", "tag": f"{prefix}collator{i}"} for i in range(rng.choice([1, 2]))]
     node = {"k": "mode", "mode": mode, "return_ctx": False, "child": cur,
             "cform": rng.choice(["compose", "single", "wrapper"]) if len(root["collators"]) == 1 else "compose"}
@@ -339,19 +406,26 @@ def gen_probe_chain(rng, prefix, allow_sched=True, allow_collators=True):
 
 
 def gen_probe_stack(rng):
-    """-> (top, kind) with kind in chain / concat / interleaved"""
+    """chain / concat of chains / interleaved chains; the parts of a concat or an interleaved stack frequently sit on ONE root"""
     r = rng.random()
-    if r < 0.2:
-        parts = [gen_probe_chain(rng, f"i{j}.", allow_sched=False) for j in range(rng.choice([2, 3]))]
+    if r < 0.25:
+        first = gen_probe_chain(rng, "i0.", allow_sched=False)
+        root = None
+        if rng.random() < 0.6:
+            root = next(x for x in _nodes(first[0]) if x["k"] == "root")
+            root.setdefault("rid", _new_rid(rng))
+        parts = [first] + [gen_probe_chain(rng, f"i{j}.", allow_sched=False, root=root) for j in range(1, rng.choice([2, 3]))]
         return {"k": "interleaved", "batch_size": min(rng.choice([2, 3]), parts[0][1]), "children": [p[0] for p in parts]}
-    if r < 0.4:
-        parts = [gen_probe_chain(rng, f"c{j}.", allow_collators=False) for j in range(2)]
-        kids = []
-        for p in parts:
-            ch = p[0]["child"]
-            # no fused wrappers below a concat (ModeWrapper could not address them)
-            kids.append(ch)
-        if any(n["k"] == "semseg" for k_ in kids for n in _nodes(k_)):
-            return parts[0][0]
+    if r < 0.55:
+        # no fused wrappers below a concat (ModeWrapper could not address them) -> image roots
+        first = gen_probe_chain(rng, "c0.", allow_collators=False, semseg=False)
+        root = None
+        if rng.random() < 0.7:
+            root = next(x for x in _nodes(first[0]) if x["k"] == "root")
+            root.setdefault("rid", _new_rid(rng))
+        parts = [first] + [gen_probe_chain(rng, f"c{j}.", allow_collators=False, root=root, semseg=False) for j in range(1, rng.choice([2, 2, 3]))]
+        kids = [p[0]["child"] for p in parts]
+        if rng.random() < 0.5:
+            kids.reverse()
         return {"k": "mode", "mode": "x", "return_ctx": False, "cform": "compose", "child": {"k": "concat", "children": kids}}
     return gen_probe_chain(rng, "")[0]
